@@ -100,6 +100,14 @@ let s_sres = function
   | RLen n -> "l" ^ string_of_z n
   | RList l -> "L[" ^ s_list s_pe l ^ "]"
 
+(* [nth k] on an iterator (script token t<k>): the model has no such method (the crate does not override
+   it); by the Iterator contract it is k+1 calls of next of which only the last result is seen. The token is
+   expanded into k+1 SNext steps and [script_mask] says which results of the last parsed script are printed. *)
+let script_mask : bool list ref = ref []
+let mask_results (l : 'a list) : 'a list =
+  if !script_mask = [] || List.length !script_mask <> List.length l then l
+  else List.concat (List.map2 (fun keep x -> if keep then [x] else []) !script_mask l)
+
 let s_out = function
   | OutUnit -> "unit"
   | OutBool b -> if b then "b1" else "b0"
@@ -110,7 +118,9 @@ let s_out = function
   | OutRef (Some x) -> "ref(" ^ s_pe x ^ ")"
   | OutList l -> "list[" ^ s_list s_elem l ^ "]"
   | OutSlices (a, b) -> "sl[" ^ s_list s_pe a ^ "|" ^ s_list s_pe b ^ "]"
-  | OutScript l -> "sc[" ^ (if l = [] then "-" else String.concat ";" (List.map s_sres l)) ^ "]"
+  | OutScript l0 ->
+    let l = mask_results l0 in
+    "sc[" ^ (if l = [] then "-" else String.concat ";" (List.map s_sres l)) ^ "]"
   | OutOrd None -> "ordnone"
   | OutOrd (Some Lt) -> "ordlt"
   | OutOrd (Some Eq) -> "ordeq"
@@ -156,7 +166,16 @@ let p_step (s : string) : sstep =
       SNextBackSet (p_elem (String.sub s 3 (String.length s - 3)))
     else failwith ("bad step " ^ s)
 
-let p_script s = List.map p_step (split ',' s)
+let p_script s =
+  let toks = split ',' s in
+  let expand t =
+    if String.length t > 1 && t.[0] = 't' then begin
+      let k = int_of_string (String.sub t 1 (String.length t - 1)) in
+      List.init (k + 1) (fun i -> (SNext, i = k))
+    end else [(p_step t, true)] in
+  let steps = List.concat (List.map expand toks) in
+  script_mask := (if List.for_all snd steps then [] else List.map snd steps);
+  List.map fst steps
 
 let p_fam = function "std" -> Std | "eio" -> Eio | "aio" -> Aio | s -> failwith ("bad fam " ^ s)
 
@@ -351,6 +370,7 @@ let () =
          | Some (s, w) ->
            (* [eq_self]: the buffer compared with itself (the same object); [p_op]
               does not see the state *)
+           script_mask := [];
            let o = (match String.split_on_char ' ' line with
                     | ["eq_self"] -> OEq s
                     | toks -> p_op toks) in
